@@ -1,7 +1,7 @@
 #!/bin/sh
-# usage: tools/confirm_seed.sh C06 A   -- independently confirms a seeded change from /tmp/seed/<pid>/seeded_out in a fresh scratch worktree
-pid="$1"; v="$2"; src=/tmp/seed/$pid/seeded_out; wt=/tmp/seedconfirm_$pid$v
-dst=/verif/seeded/$pid-$v
+# usage: [SEEDDIR=/tmp/seed2] tools/confirm_seed.sh C06 A [C]  (third argument: name to keep it under)   -- independently confirms a seeded change from /tmp/seed/<pid>/seeded_out in a fresh scratch worktree
+pid="$1"; v="$2"; name="${3:-$2}"; src=${SEEDDIR:-/tmp/seed2}/$pid/seeded_out; wt=/tmp/seedconfirm_$pid$v
+dst=/verif/seeded/$pid-$name
 rm -rf "$wt"; git -C /repo worktree add -q --detach "$wt" HEAD || exit 2
 cd "$wt" || exit 2
 mkdir -p seeded_out && cp "$src"/*.py seeded_out/ 2>/dev/null
@@ -12,14 +12,14 @@ run seeded_out/demo_$v.py >/tmp/sc_$pid$v.mut 2>&1; rc_mut=$?
 PYTHONPATH=$wt /venv/bin/python -m pytest -q -p no:cacheprovider --timeout=900 -x >/tmp/sc_$pid$v.tests 2>&1; rc_tests=$?
 tests=$(tail -1 /tmp/sc_$pid$v.tests)
 cd /; git -C /repo worktree remove --force "$wt"
-echo "$pid-$v demo_clean_rc=$rc_clean demo_mut_rc=$rc_mut tests_rc=$rc_tests [$tests]"
+echo "$pid-$name demo_clean_rc=$rc_clean demo_mut_rc=$rc_mut tests_rc=$rc_tests [$tests]"
 if [ $rc_clean = 0 ] && [ $rc_mut = 1 ] && [ $rc_tests = 0 ]; then
   mkdir -p "$dst"; cp "$src/$v.diff" "$dst/patch.diff"; cp "$src/demo_$v.py" "$dst/demo.py"
   for f in "$src"/_*.py; do [ -f "$f" ] && cp "$f" "$dst/"; done
   cp "$src/notes.md" "$dst/notes_from_author.md"
   cat > "$dst/meta.json" <<EOM
-{"property": "$pid", "variant": "$v", "confirmed": {"demo_on_clean_tree_rc": $rc_clean, "demo_with_patch_rc": $rc_mut, "test_suite_with_patch": "$tests"},
- "ran": "tools/confirm_seed.sh $pid $v (fresh scratch worktree of /repo HEAD: demo clean, git apply patch.diff, demo, full pytest)", "needs": "see notes_from_author.md", "detected_by": "pending"}
+{"property": "$pid", "variant": "$name", "confirmed": {"demo_on_clean_tree_rc": $rc_clean, "demo_with_patch_rc": $rc_mut, "test_suite_with_patch": "$tests"},
+ "ran": "tools/confirm_seed.sh $pid $v $name (fresh scratch worktree of /repo HEAD: demo clean, git apply patch.diff, demo, full pytest)", "needs": "see notes_from_author.md", "detected_by": "pending"}
 EOM
   echo KEPT
 else echo REJECTED; fi
